@@ -937,6 +937,7 @@ func runConcConn(c *simkit.Choice, r *simkit.Rec) {
 	if abortMode {
 		rdBuf = 4096
 		closer, halfCloser, corrupt, implicitHS = false, false, true, false
+		quietPeer = false // (no closer in this mode)
 		if nw[0] < 1 {
 			nw[0] = 1
 		}
@@ -1009,6 +1010,8 @@ func runConcConn(c *simkit.Choice, r *simkit.Rec) {
 		ekmCallers = 2 + c.Choose(2, simkit.LScen)
 	}
 	a, b := s.NewConnPair("cli", "srv", netC, netS)
+	cliTransportClosed := &simkit.Flag{Name: "client-transport-closed"}
+	a.OnClose = cliTransportClosed.Set
 	if lateWriter {
 		hasCCS := func(buf []byte) bool {
 			recs, _ := reftls.ParseRecords(buf)
@@ -1298,6 +1301,9 @@ func runConcConn(c *simkit.Choice, r *simkit.Rec) {
 				for _, f := range rdone {
 					s.WaitFlag(f)
 				}
+				// really quiet: not even the client's close_notify makes this peer hang up,
+				// only the end of the client's transport stream does
+				s.WaitFlag(cliTransportClosed)
 				quietReached.Store(true)
 			}
 			if implicitHS {
